@@ -305,7 +305,7 @@ def judge_aliased(rep, c):
         same_file = (s is not None and d is not None and c["ra"] + s == c["rb"] + d and kind in ("move", "copy")
                      and (c["va"], c["ra"]) != (c["vb"], c["rb"]) or (c["va"] == "twin") != (c["vb"] == "twin"))
         if (s is not None and d is not None and c["ra"] + s == c["rb"] + d and kind in ("move", "copy")
-                and (c["base"] == "mem" or not (clean(c["sp"]) and clean(c["dp"])))):
+                and (kind == "copy" or c["base"] == "mem" or not (clean(c["sp"]) and clean(c["dp"])))):
             # open known finding: the copy-then-remove fallback opens the destination for writing
             # (truncating it) before reading the source, and both are the same file
             rep.violation(case, "known class", found_input=True, signature="C05/known/aliased-views-same-file-truncated")
